@@ -16,6 +16,47 @@ fn ascii(rng: &mut Rng, n: usize) -> Vec<u8> {
         .collect()
 }
 
+/// The ASCII string literals (1..=200 bytes, no escapes other than `\\`, `\"`) of the given files of the
+/// Physis tree under test (`VERIF_REPO`), deduplicated, at most 4000.  A search heuristic only: which
+/// strings are hashed is a matter of the generator, what their hashes must be is the specification's.
+fn source_literals(files: &[&str]) -> Vec<Vec<u8>> {
+    let root = std::env::var("VERIF_REPO").unwrap_or_else(|_| "/repo".to_string());
+    let mut seen = std::collections::BTreeSet::new();
+    for f in files {
+        let Ok(text) = std::fs::read(std::path::Path::new(&root).join(f)) else { continue };
+        let mut i = 0;
+        while i < text.len() {
+            if text[i] == b'"' {
+                let mut j = i + 1;
+                let mut cur = vec![];
+                let mut ok = true;
+                while j < text.len() && text[j] != b'"' {
+                    if text[j] == b'\\' && j + 1 < text.len() {
+                        match text[j + 1] {
+                            b'\\' | b'"' => cur.push(text[j + 1]),
+                            _ => ok = false,
+                        }
+                        j += 2;
+                        continue;
+                    }
+                    if text[j] == b'\n' || text[j] >= 128 {
+                        ok = false;
+                    }
+                    cur.push(text[j]);
+                    j += 1;
+                }
+                if ok && !cur.is_empty() && cur.len() <= 200 && !cur.contains(&b' ') || (ok && cur.len() <= 64 && !cur.is_empty()) {
+                    seen.insert(cur);
+                }
+                i = j + 1;
+            } else {
+                i += 1;
+            }
+        }
+    }
+    seen.into_iter().take(4000).collect()
+}
+
 pub fn generate(thorough: bool, seed: u64, out: &mut dyn Write) {
     let mut rng = Rng::new(seed, "C12");
     // every ASCII string of length 0..=2 (exhaustive)
@@ -29,6 +70,15 @@ pub fn generate(thorough: bool, seed: u64, out: &mut dyn Write) {
             for b in 0..128u8 {
                 writeln!(out, "{} {}", op, hex(&[a, b])).unwrap();
             }
+        }
+    }
+    // every string literal of the current source of the hashing code and its callers (a name the
+    // code treats specially — a fast path, a lookup table of "well-known" keys, a reserved word —
+    // has to be written down there): hashed through both functions, as written, lower- and upper-cased
+    for lit in source_literals(&["src/crc.rs", "src/shpk.rs", "src/mtrl.rs", "src/sqpack/index.rs", "src/gamedata.rs", "src/common.rs", "src/repository.rs"]) {
+        for v in [lit.clone(), lit.to_ascii_lowercase(), lit.to_ascii_uppercase()] {
+            writeln!(out, "shcrc {}", hex(&v)).unwrap();
+            writeln!(out, "jamcrc {}", hex(&v)).unwrap();
         }
     }
     // SHA-1: lengths 0..=300, every padding boundary, random lengths, > 2 MiB (shared with C10)
